@@ -30,6 +30,9 @@ func runC15(r *an.Run) {
 	c15NoSymlinks(r)
 	c15OnceInOrder(r)
 	c15Normalisation(r)
+	if m := buildRunModel(r); m != nil {
+		everyParsedFileReachesApply(r, m, "R5-every-discovered-file-is-handed-to-the-patches")
+	}
 }
 
 func walkCallback(r *an.Run) (f, clo *ssa.Function, walk ssa.CallInstruction) {
@@ -216,8 +219,13 @@ func c15WalkTable(r *an.Run) {
 		rows = append(rows, fmt.Sprintf("%v -> %s append=%v", atomList(p.Atoms), out, appended))
 		if !ok {
 			bad++
-			r.Fail(short(clo)+"|row|"+atomList(p.Atoms), p.End.Instrs[0].Pos(), "walk decision %s gives (%s, appended=%v), specified (%s, appended=%v)", atomList(p.Atoms), out, appended, want, wantAppend)
+			if bad <= 3 {
+				r.Fail(short(clo)+"|row|"+strconvItoa(bad), p.End.Instrs[0].Pos(), "walk decision %s gives (%s, appended=%v), specified (%s, appended=%v)", atomList(p.Atoms), out, appended, want, wantAppend)
+			}
 		}
+	}
+	if bad > 3 {
+		r.Fail(short(clo)+"|rows", clo.Pos(), "%d of the %d decision paths of the walk callback deviate from the specified table (first three listed above; the full table is in the evidence)", bad, len(paths))
 	}
 	if bad == 0 {
 		r.Pass(short(clo)+"|table", clo.Pos(), "all %d paths of the walk callback decide as specified: append iff regular && .go; SkipDir iff directory with an excluded name; errors returned", len(paths))
@@ -492,3 +500,5 @@ func c15ExcludedHelper(r *an.Run, h *ssa.Function, consts map[string]bool) {
 	}
 	r.Check(good, short(h)+"|table", h.Pos(), "%s is true exactly when the base name is empty, starts with an excluded character or is an excluded name (%d paths)", short(h), len(paths))
 }
+
+func strconvItoa(i int) string { return fmt.Sprintf("%d", i) }
